@@ -28,8 +28,10 @@ m = {"version": 1, "setup_cmd": "./setup.sh",
                   "serves_properties": [c["property_id"] for c in checks],
                   "kind_free_text": "Coq 8.16.1 theories (coq/theories) proved with full .vo builds; guards regenerated from /repo by gen/; Go harnesses run the real code and the observations are judged inside Coq by vm_compute (model equality and specification oracle)"},
                  {"name": "system-composition", "path": "/verif/check SYS", "serves_properties": ["C07", "C08", "C09", "C16", "C19"],
-                  "kind_free_text": "extra correspondence run (./check SYS) of the relay that cmd/mocrelay assembles against the composed Coq model System.v; not registered as a property check; its SYS_* theorems are built and counted with C16"}],
+                  "kind_free_text": "extra correspondence run (./check SYS) of the relay that cmd/mocrelay assembles against the composed Coq model System.v; not registered as a property check; its SYS_* theorems are built and counted with C16"},
+                 {"name": "json-text-model", "path": "/verif/check C10T", "serves_properties": ["C10", "C11", "C12"],
+                  "kind_free_text": "extra correspondence run (./check C10T) of the byte-level JSON parser/printer model JsonText.v against Go's encoding/json, utf8.Valid and the label regexp; not registered as a property check; its C10T_* theorems are built and counted with C10"}],
      "checks": checks, "not_applicable": na,
-     "notes": "All checks go through ./check (lib/engine.py). VERIF_SEED and VERIF_TIER are honoured. DESIGN.md section 10 describes the system as built. Extra engine (not one of the 20 properties): ./check SYS drives the composed relay of cmd/mocrelay (merge(cache, router, SQLite) + Prometheus) on one connection against System.v (evidence/SYS.json); the ADM_* theorems (gate instantiated with the codec/validator/serializer models) are built and counted with C12."}
+     "notes": "All checks go through ./check (lib/engine.py). VERIF_SEED and VERIF_TIER are honoured. DESIGN.md section 10 describes the system as built. Extra engine (not one of the 20 properties): ./check SYS drives the composed relay of cmd/mocrelay (merge(cache, router, SQLite) + Prometheus) on one connection against System.v (evidence/SYS.json); the ADM_* theorems (gate instantiated with the codec/validator/serializer models) are built and counted with C12. ./check C10T compares the byte-level JSON model (JsonText.v; C10T_* theorems built and counted with C10) with Go's encoding/json, utf8 and regexp on generated and malformed texts (evidence/C10T.json)."}
 json.dump(m, open(os.path.join(ROOT, "MANIFEST.json"), "w"), indent=1)
 print("claimed:", [c["property_id"] for c in checks])
